@@ -74,7 +74,7 @@ pub fn build_script(old: &[u32], new: &[u32], choices: &[(u8, u8)]) -> Vec<SOp> 
     out
 }
 
-fn script_is_valid(c: &ScriptCase) -> Result<(), String> {
+pub fn script_is_valid(c: &ScriptCase) -> Result<(), String> {
     let ev = ops_to_events(&c.script.iter().map(|s| s.to_op()).collect::<Vec<_>>());
     let mut ev2 = ev.clone();
     ev2.push(Ev::Finish);
@@ -107,7 +107,7 @@ fn script_is_valid(c: &ScriptCase) -> Result<(), String> {
     Ok(())
 }
 
-fn drive<D: DiffHook>(d: &mut D, script: &[SOp]) -> Result<(), D::Error> {
+pub fn drive<D: DiffHook>(d: &mut D, script: &[SOp]) -> Result<(), D::Error> {
     for s in script {
         s.to_op().apply_to_hook(d)?;
     }
@@ -199,7 +199,7 @@ pub fn check_case(c: &ScriptCase, obs: &mut Obs) -> Verdict {
     Verdict::Pass
 }
 
-fn strat(tier: Tier) -> BoxedStrategy<ScriptCase> {
+pub fn strat(tier: Tier) -> BoxedStrategy<ScriptCase> {
     let l = tier.pick(10usize, 14);
     let pair = prop_oneof![
         3 => (1u32..4, vec(0u32..3, 0..=l), vec(0u32..3, 0..=l)).prop_map(|(k, a, b)| (
@@ -276,7 +276,7 @@ fn all_scripts(old: &[u32], new: &[u32], i: usize, j: usize, cur: &mut Vec<SOp>,
     true
 }
 
-fn enum_scripts(tier: Tier, f: &mut dyn FnMut(ScriptCase) -> bool) {
+pub fn enum_scripts(tier: Tier, f: &mut dyn FnMut(ScriptCase) -> bool) {
     let seqs = all_seqs(2, 3);
     let _ = tier;
     for a in &seqs {
